@@ -1,7 +1,7 @@
 //! Native expander (R in DESIGN.md): runs the real derive-ex entry points in-process.
 //!
 //! Protocol (stdin): records terminated by 0x1e, fields separated by 0x1f:
-//!     mode 0x1f attr 0x1f item 0x1e        mode = "attr" | "derive"
+//!     mode 0x1f attr 0x1f item 0x1e        mode = "attr" | "derive" | "parse" (parse: only says whether `item` parses as items)
 //! Output (stdout): one JSON object per record, one per line.
 //!
 //! It never decides anything: it is used to replay solver counterexamples, to validate the MIR
@@ -116,6 +116,13 @@ fn handle(mode: &str, attr: &str, item: &str) -> String {
         Ok(t) => t,
         Err(e) => return format!("{{\"lex_error\":{}}}", esc(&format!("item: {e}"))),
     };
+    if mode == "parse" {
+        // no expansion: is the item itself a sequence of syntactically valid items (as syn sees them)?
+        return match syn::parse2::<syn::File>(item_ts) {
+            Ok(_) => "{\"parse_ok\":true}".to_string(),
+            Err(e) => format!("{{\"parse_ok\":false,\"parse_error\":{}}}", esc(&e.to_string())),
+        };
+    }
     let r = catch_unwind(AssertUnwindSafe(|| match mode {
         "attr" => derive_ex_hooked::verif_hooks::expand_attr(attr_ts, item_ts),
         _ => derive_ex_hooked::verif_hooks::expand_derive(item_ts),
